@@ -402,3 +402,272 @@ def dump_collections(path):
     with open(path, 'w') as f:
         json.dump(out, f)
     return len(out)
+
+
+# ------------------------------------------------------------------------------------------------
+# Viewer layer traces (E2 for C18): one trace per Viewer object. The trace holds the events of the viewer's collection
+# (append/remove dataset, new/removed group, stand-alone subsets created/deleted) from the creation of the viewer on, and the
+# calls made on the viewer; every event carries the viewer's layers projected AFTER the call.
+
+VTRACES = []
+_BY_VIEWER = weakref.WeakKeyDictionary()
+_VIEWERS_OF = weakref.WeakKeyDictionary()       # DataCollection -> list of weakrefs to viewers
+_DATA_OWNER = weakref.WeakKeyDictionary()       # Data -> DataCollection (last one that listed it)
+
+
+class _ViewerTrace(object):
+    def __init__(self, kind):
+        self.kind = kind
+        self.events = []
+        self.depth = 0
+        self.last = None
+        self.last_delay = 0
+        self.closed = False
+        self.alone = {}          # id(subset) -> number >= 9
+        self.keep = []
+
+
+def install_viewers():
+    from glue.viewers.common.viewer import Viewer
+    from glue.core.data_collection import DataCollection
+    from glue.core.data import BaseData, Data
+    from glue.core.subset import Subset
+    from glue.core.subset_group import GroupedSubset
+    if getattr(Viewer, '_verif_traced', False):
+        return
+    Viewer._verif_traced = True
+    install_collection()
+
+    def ctrace(dc):
+        t = _BY_DC.get(dc)
+        if t is None:
+            t = _CollTrace()
+            _BY_DC[dc] = t
+            CTRACES.append(t)
+        return t
+
+    def akey(vt, s):
+        k = id(s)
+        if k not in vt.alone:
+            vt.alone[k] = 9 + len(vt.alone)
+            vt.keep.append(s)
+        return vt.alone[k]
+
+    def lkey(vt, ct, layer):
+        if isinstance(layer, BaseData):
+            return [ct.dname(layer), 0]
+        d = ct.dname(layer.data)
+        if isinstance(layer, GroupedSubset):
+            n = ct.gid(layer.group, adopt=False)
+            return [d, n if n is not None else 8000]
+        return [d, akey(vt, layer)]
+
+    def project(v, vt):
+        dc = v.session.data_collection
+        ct = ctrace(dc)
+        st = ct.project(dc)
+        layers = [lkey(vt, ct, la.layer) for la in v._layer_artist_container]
+        slayers = [lkey(vt, ct, ls.layer) for ls in v.state.layers]
+        alone = []
+        for d in dc._data:
+            for s in d.subsets:
+                if not isinstance(s, GroupedSubset):
+                    alone.append([ct.dname(d), akey(vt, s)])
+        hub = dc.hub
+        return {'coll': st['coll'], 'groups': st['groups'], 'alone': alone, 'layers': layers, 'slayers': slayers,
+                'delay': st['delay'], 'registered': bool(getattr(v, '_hub', None) is hub and hub is not None)}
+
+    def emit(v, vt, ev, **kw):
+        if vt.closed:
+            return
+        try:
+            st = project(v, vt)
+        except Exception:
+            vt.closed = True
+            return
+        vt.last = sorted(map(tuple, st['layers']))
+        vt.last_delay = st['delay']
+        vt.events.append(dict(st, ev=ev, **kw))
+
+    def presync(v, vt):
+        """layers changed between two traced calls although no delay block was open (the test edited state.layers, ...)"""
+        if vt.closed or vt.last is None:
+            return
+        try:
+            st = project(v, vt)
+        except Exception:
+            vt.closed = True
+            return
+        if st['delay'] == 0 and vt.last_delay == 0 and sorted(map(tuple, st['layers'])) != vt.last:
+            vt.last = sorted(map(tuple, st['layers']))
+            vt.events.append(dict(st, ev='Adopt'))
+
+    def viewers_of(dc):
+        out = []
+        for r in _VIEWERS_OF.get(dc, []):
+            v = r()
+            if v is not None:
+                out.append(v)
+        return out
+
+    o_init = Viewer.__init__
+
+    def v_init(self, session, state=None):
+        o_init(self, session, state=state)
+        try:
+            dc = session.data_collection
+            vt = _ViewerTrace(type(self).__name__)
+            _BY_VIEWER[self] = vt
+            VTRACES.append(vt)
+            _VIEWERS_OF.setdefault(dc, []).append(weakref.ref(self))
+            emit(self, vt, 'Adopt')
+        except Exception:
+            pass
+    Viewer.__init__ = v_init
+
+    def vwrap(name, evname, arg_of):
+        orig = getattr(Viewer, name)
+
+        def f(self, *a, **k):
+            vt = _BY_VIEWER.get(self)
+            if vt is None or vt.depth > 0 or vt.closed:
+                return orig(self, *a, **k)
+            presync(self, vt)
+            vt.depth += 1
+            ok = False
+            try:
+                r = orig(self, *a, **k)
+                ok = True
+                return r
+            finally:
+                vt.depth -= 1
+                if ok:
+                    try:
+                        ct = ctrace(self.session.data_collection)
+                        emit(self, vt, evname, **arg_of(self, vt, ct, a, k, r))
+                    except Exception:
+                        vt.closed = True
+                else:
+                    vt.closed = True
+        setattr(Viewer, name, f)
+
+    def a_data(v, vt, ct, a, k, r):
+        d = a[0] if a else k.get('data')
+        return {'d': ct.dname(d), 'ok': r is not False and r is not None or evname_is_remove(a, k, r)}
+
+    def evname_is_remove(a, k, r):
+        return r is None
+
+    def a_layer(v, vt, ct, a, k, r):
+        layer = a[0] if a else (k.get('subset') or k.get('layer'))
+        key = lkey(vt, ct, layer)
+        return {'d': key[0], 'x': key[1], 'ok': r is not False}
+    vwrap('add_data', 'ViewerAddData', lambda v, vt, ct, a, k, r: {'d': ct.dname(a[0] if a else k.get('data')), 'ok': r is True})
+    vwrap('remove_data', 'ViewerRemoveData', lambda v, vt, ct, a, k, r: {'d': ct.dname(a[0] if a else k.get('data')), 'ok': True})
+    vwrap('add_subset', 'AddSubsetLayer', a_layer)
+    vwrap('remove_subset', 'RemoveLayer', a_layer)
+    vwrap('remove_layer', 'RemoveLayer', a_layer)
+
+    o_cleanup = Viewer.cleanup
+
+    def v_cleanup(self):
+        vt = _BY_VIEWER.get(self)
+        if vt is not None:
+            vt.closed = True
+        return o_cleanup(self)
+    Viewer.cleanup = v_cleanup
+
+    o_set = Viewer.__dict__['__setgluestate__'].__func__
+
+    def v_set(cls, rec, context):
+        v = o_set(cls, rec, context)
+        vt = _BY_VIEWER.get(v)
+        if vt is not None:
+            emit(v, vt, 'Adopt')
+        return v
+    Viewer.__setgluestate__ = classmethod(v_set)
+
+    # collection events reach the traces of the viewers of that collection
+    def cwrap(name, evname, arg_of):
+        orig = getattr(DataCollection, name)
+
+        def f(self, *a, **k):
+            vs = [v for v in viewers_of(self) if _BY_VIEWER.get(v) is not None and not _BY_VIEWER[v].closed and _BY_VIEWER[v].depth == 0]
+            if name == 'append' and a and isinstance(a[0], list):
+                return orig(self, *a, **k)
+            for v in vs:
+                presync(v, _BY_VIEWER[v])
+                _BY_VIEWER[v].depth += 1
+            ok = False
+            try:
+                r = orig(self, *a, **k)
+                ok = True
+                return r
+            finally:
+                for v in vs:
+                    vt = _BY_VIEWER[v]
+                    vt.depth -= 1
+                    if ok:
+                        try:
+                            emit(v, vt, evname, **arg_of(ctrace(self), a, k, r))
+                        except Exception:
+                            vt.closed = True
+                    else:
+                        vt.closed = True
+        setattr(DataCollection, name, f)
+    cwrap('append', 'Append', lambda ct, a, k, r: {'d': ct.dname(a[0] if a else k.get('data'))})
+    cwrap('remove', 'Remove', lambda ct, a, k, r: {'d': ct.dnames.get(id(a[0] if a else k.get('data')), 'X')})
+    cwrap('new_subset_group', 'NewGroup', lambda ct, a, k, r: {'g': ct.gid(r)})
+    cwrap('remove_subset_group', 'RemoveGroup', lambda ct, a, k, r: {'g': ct.gids.get(id(a[0] if a else k.get('subset_grp')), 0)})
+
+    # stand-alone subsets
+    o_addsub, o_delete = Data.add_subset, Subset.delete
+
+    def find_dc(data):
+        hub = getattr(data, 'hub', None)
+        for dc in list(_VIEWERS_OF.keys()):
+            if data in dc._data:
+                return dc
+        return None
+
+    def d_add_subset(self, subset):
+        r = o_addsub(self, subset)
+        try:
+            if not isinstance(subset, GroupedSubset):
+                dc = find_dc(self)
+                if dc is not None:
+                    for v in viewers_of(dc):
+                        vt = _BY_VIEWER.get(v)
+                        if vt is not None and vt.depth == 0 and not vt.closed:
+                            ct = ctrace(dc)
+                            new = [s for s in self.subsets if not isinstance(s, GroupedSubset)][-1]
+                            emit(v, vt, 'NewAlone', d=ct.dname(self), x=akey(vt, new))
+        except Exception:
+            pass
+        return r
+    Data.add_subset = d_add_subset
+
+    def s_delete(self):
+        data = getattr(self, 'data', None)
+        grouped = isinstance(self, GroupedSubset)
+        was_there = data is not None and hasattr(data, 'subsets') and self in data.subsets
+        r = o_delete(self)
+        try:
+            if not grouped and was_there:
+                dc = find_dc(data)
+                if dc is not None:
+                    for v in viewers_of(dc):
+                        vt = _BY_VIEWER.get(v)
+                        if vt is not None and vt.depth == 0 and not vt.closed:
+                            emit(v, vt, 'DeleteAlone', d=ctrace(dc).dname(data), x=akey(vt, self))
+        except Exception:
+            pass
+        return r
+    Subset.delete = s_delete
+
+
+def dump_viewers(path):
+    out = [{'events': t.events, 'kind': t.kind} for t in VTRACES if len(t.events) > 1]
+    with open(path, 'w') as f:
+        json.dump(out, f)
+    return len(out)
